@@ -607,6 +607,11 @@ Section WithTables.
     rewrite <- IH. symmetry. apply lex_loop_fuel. lia.
   Qed.
 
+  Theorem lex_terminates s f pos : (List.length s < f)%nat -> lex_loop f pos s = lex_loop (S (List.length s)) pos s.
+  Proof. intros H. apply lex_loop_fuel_ge; lia. Qed.
+  Theorem reject_no_tokens s : lex s = None -> forall ts, lex s <> Some ts.
+  Proof. intros H ts E. rewrite H in E. discriminate. Qed.
+
   (* ---- tiling ---- *)
   Inductive tiles : N -> str -> list token -> Prop :=
   | tiles_nil pos s : forallb is_iws s = true -> tiles pos s []
